@@ -19,6 +19,30 @@ from harness import c08, clipcommon
 PROP = 'C09'
 
 
+def save_and_reopen(ctx, out, cls, polygons_expected):
+    """replay only: the clipped dataset can be saved through the convention and reopened as the same convention"""
+    if ctx.symbolic:
+        return
+    import os
+    import emsarray
+    with clipcommon.work_dir(ctx) as wd:
+        path = os.path.join(wd, 'clipped.nc')
+        try:
+            out.ems.to_netcdf(path)
+        except Exception as e:
+            ctx.check(False, f'the clipped dataset can be saved: {type(e).__name__}: {str(e)[:160]}')
+            return
+        back = emsarray.open_dataset(path)
+        try:
+            ctx.check(type(back.ems) is cls, 'the clipped dataset can be saved and reopened as a dataset of the same convention')
+            got = back.ems.polygons
+            ctx.check(len(got) == len(polygons_expected) and all(
+                (a is None and b is None) or (a is not None and b is not None and ring_of(a) == ring_of(b)) for a, b in zip(got, polygons_expected)),
+                'the reopened dataset has the same polygons')
+        finally:
+            back.close()
+
+
 def ring_of(p):
     return [tuple(round(float(v), 9) for v in c) for c in p.exterior.coords[:-1]]
 
@@ -47,6 +71,7 @@ def check_grid_geometry(ctx, ds, cv, out, kinds, masks, conv):
                       'every selected cell has exactly its original polygon')
         if new[k] is not None:
             ctx.check(tuple(ring_of(new[k])) in old_rings, 'no polygon appears that the original did not have')
+    save_and_reopen(ctx, out, cls, new)
     # the geometry variables survive with their attributes
     for name in cv.get_all_geometry_names():
         ctx.check(name in out.variables and out[name].attrs == ds[name].attrs, f'geometry variable {name} survives with its attributes')
@@ -82,6 +107,7 @@ def check_mesh_topology(ctx, ds, cv, out, info, kept, supply, start_index):
     ctx.check(all(c08_ring(p) == c08_ring(cv.polygons[f]) for p, f in zip(ocv.polygons, kept)),
               'every selected face has exactly its original polygon')
     ctx.check(len(ocv.polygons) == len(kept), 'no face appears that was not selected')
+    save_and_reopen(ctx, out, UGrid, ocv.polygons)
     present = {
         'face_node': 'face_node', 'edge_node': 'edge_node', 'face_edge': 'face_edge', 'edge_face': 'edge_face', 'face_face': 'face_face'}
     for name in ['face_node'] + list(supply):
